@@ -1,27 +1,15 @@
 (* Tie/Sample.v — T-tie for the unweighted descriptive statistics of stats/sample.go (Bounds,
-   Mean, Variance, StdDev on []float64) and vec/vec.go Sum, property C09: the loops generated
+   Mean, Variance, StdDev on []float64) property C09 (vec/vec.go Sum and Linspace: Tie/Vec.v, Tie/Linspace.v): the loops generated
    from the current source compute the loop models of Model/Sample.v (bounds, mean_loop,
    var_loop, vsum).  math.NaN() and math.Sqrt are opaque (nanv, sqrtf).  The slice length is
    assumed below 2^62 (the index i+1 is a Go int).  Compiled by bin/ttie. *)
 From Coq Require Import ZArith NArith QArith Qround Qabs List Lia Lqa.
 From MM Require Import Base.Num Base.GoSem Model.Sample.
-From MMGen Require Import Gen_vec_vec Gen_stats_sample.
+From MMGen Require Import Gen_vec_vec Gen_stats_sample Tie_Linspace.
 Import ListNotations.
 Local Open Scope Q_scope.
 
 Definition fres_val (nanv : Q) (r : fres) : Q := match r with FVal v => v | _ => nanv end.
-Definition len_ok {A} (xs : list A) : Prop := (Z.of_nat (length xs) < 4611686018427387904)%Z.
-
-(* ---------- vec.Sum ---------- *)
-Lemma sum_fold (f : Q -> Q -> Q) : (forall s x, f s x = s + x) ->
-  forall xs a a', a == a' -> fold_left f xs a == fold_left (fun a x => Qred (a + x)) xs a'.
-Proof.
-  intros Hf. induction xs as [|x xs IH]; intros a a' H; cbn [fold_left]; [exact H|].
-  apply IH. rewrite Hf, Qred_correct, H. reflexivity.
-Qed.
-
-Theorem tie_vec_Sum : forall xs : list Q, gen_Sum xs == vsum xs.
-Proof. intros xs. unfold gen_Sum, vsum. cbv zeta. apply sum_fold; [reflexivity | reflexivity]. Qed.
 
 (* ---------- Bounds ---------- *)
 Lemma bounds_fold (f : Q * Q -> Q -> Q * Q) : (forall mn mx x, f (mn, mx) x = bounds_step (mn, mx) x) ->
@@ -103,35 +91,3 @@ Qed.
 Theorem tie_StdDev : forall (nanv : Q) (sqrtf : Q -> Q) (xs : list Q),
   gen_StdDev nanv sqrtf xs = sqrtf (gen_Variance nanv xs).
 Proof. reflexivity. Qed.
-
-(* ---------- vec.Linspace ---------- *)
-Lemma go_range_0_seq n : go_range 0 (Z.of_nat n) = map Z.of_nat (seq 0 n).
-Proof.
-  unfold go_range. rewrite Z.sub_0_r, Nat2Z.id. apply map_ext. intros k. lia.
-Qed.
-
-Lemma Forall2_map_flip {A} (P : Z -> Q -> Prop) (g : A -> Z) (f : A -> Q) :
-  (forall a y, P (g a) y -> y == f a) ->
-  forall l ys, Forall2 P (map g l) ys -> Forall2 Qeq ys (map f l).
-Proof.
-  intros H. induction l as [|a l IH]; intros ys F; simpl in *; inversion F; subst; constructor.
-  - apply H. assumption.
-  - apply IH. assumption.
-Qed.
-
-Theorem tie_vec_Linspace : forall (lo hi : Q) (num : nat), len_ok (seq 0 num) ->
-  Forall2 Qeq (gen_Linspace lo hi (Z.of_nat num)) (linspace lo hi num).
-Proof.
-  intros lo hi num Hl. unfold len_ok in Hl. rewrite seq_length in Hl.
-  destruct num as [|[|n]].
-  - constructor.
-  - repeat constructor.
-  - unfold gen_Linspace, linspace. cbv zeta.
-    destruct (Z.eqb_spec (Z.of_nat (S (S n))) 1) as [E|_]; [lia|].
-    apply (Forall2_map_flip (fun i v => v == lo + inject_Z i * (hi - lo) / inject_Z (Z.of_nat (S (S n)) - 1)) Z.of_nat).
-    + intros a y H. rewrite Qred_correct, H. unfold Qofnat.
-      replace (Z.of_nat (S (S n) - 1)) with (Z.of_nat (S (S n)) - 1)%Z by lia. reflexivity.
-    + rewrite <- go_range_0_seq. apply fold_range_fill. intros ys i Hi.
-      cbv beta zeta. eexists; split; [reflexivity|].
-      unfold go_i2f, go_ssub. rewrite wrap_s64_small by lia. reflexivity.
-Qed.
